@@ -552,8 +552,7 @@ Print Assumptions c12_source_schedule_independent.
 (* ---- INSTRUCTION-level interleavings of the program of the source (C12/ProgFine.v): [pmrun] executes one
    instruction of one task per step, in any order — between `lock().await` and the test of the slot, between
    `symbols_requested += 1` and the supplier call, between the store and the end of get any other task may run
-   (multi-threaded executors).  Finer than C12/FineModel.v's five atomic blocks; the counters are not covered at this
-   granularity. ---- *)
+   (multi-threaded executors).  Finer than C12/FineModel.v's five atomic blocks. ---- *)
 From RM Require Import C12.ProgFine.
 
 Theorem c12_source_instr_at_most_once : forall (pc : pconfig) (ms : list task) (k : key),
@@ -616,6 +615,21 @@ Theorem c12_source_polls_are_instruction_schedules : forall (pc : pconfig) (sche
   exists ms, pstate_eq (pmrun src_program pc ms) (prun src_program pc sched).
 Proof. exact src_polls_are_instruction_schedules. Qed.
 Print Assumptions c12_source_polls_are_instruction_schedules.
+
+(* the pending counters at instruction granularity (symbol lookups): `symbols_requested += 1`, the supplier call,
+   `symbols_processed += 1`, the stats insert and the store are separate steps between which other tasks run *)
+From RM Require Import C12.ProgCount.
+Theorem c12_source_instr_counters_bounded : forall (pc : pconfig) (ms : list task), sym_only pc ->
+  proc (psh (pmrun src_program pc ms)) <= req (psh (pmrun src_program pc ms)) /\
+  req (psh (pmrun src_program pc ms)) <= distinct_keys (cfg pc).
+Proof. exact src_pm_counters_bounded. Qed.
+Print Assumptions c12_source_instr_counters_bounded.
+
+Theorem c12_source_instr_counters : forall (pc : pconfig) (ms : list task), sym_only pc ->
+  pall_done pc (pmrun src_program pc ms) = true ->
+  req (psh (pmrun src_program pc ms)) = distinct_keys (cfg pc) /\ proc (psh (pmrun src_program pc ms)) = distinct_keys (cfg pc).
+Proof. exact src_pm_counters_quiescent. Qed.
+Print Assumptions c12_source_instr_counters.
 
 Example c12_nonvacuous_instr :
   let s1 := pmrun src_program two_fill [0; 0; 0; 0; 0; 1; 1] in
